@@ -8,7 +8,7 @@
     correspondence check, not yet by a closed theorem: hence `_partial`. *)
 From Coq Require Import NArith List String Bool.
 From Coq Require Import Strings.Byte.
-From PDL Require Import Base.Bits Base.Outcome Lang.Ast Lang.Sexp Analyzer.Schema Sem.RefEncode Rust.Encode Proofs.Pack Proofs.BitfieldEncode Proofs.SchemaEnums.
+From PDL Require Import Base.Bits Base.Outcome Lang.Ast Lang.Sexp Analyzer.Schema Sem.RefEncode Rust.Encode Proofs.Pack Proofs.BitfieldEncode Proofs.SchemaEnums Proofs.ArrayEncode.
 Import ListNotations.
 Open Scope N_scope.
 
@@ -65,6 +65,38 @@ Theorem C03_bitfield_declarations_encode_as_reference_real_schema :
     end.
 Proof. exact rust_encode_fragment_real_schema. Qed.
 Print Assumptions C03_bitfield_declarations_encode_as_reference_real_schema.
+
+(** SIZE AND COUNT FIELDS AND ARRAYS (Proofs/ArrayEncode.v).  Root declarations whose fields
+    are bit-fields, `_count_` fields, `_size_` fields of arrays (narrower than 64 bits, array
+    without size modifier), arrays of scalar or enum elements with a static count, a size or a
+    count field or none, and `_padding_`: whenever the reference has an encoding, the emitted
+    encoder returns exactly those bytes -- the size field carries the octet size, the count
+    field the element count, the padding is zero -- or pdlc refused the declaration. *)
+Theorem C03_sizes_counts_and_arrays_encode_as_reference :
+  forall (fuel : nat) (fl : file) (sch : schema) (id : string) (d : decl) (v : value) (bs : list byte),
+    enum_widths_fit fl = true -> Analyzer.Schema.mk_schema fl = Some sch ->
+    lookup_decl fl id = Some d ->
+    root_of_array_fragment fl d ->
+    ref_encode (S fuel) fl id v = Some bs ->
+    match rust_encode (S fuel) fl sch id v with
+    | Ok out => out = bs
+    | Panic GenAssert => True
+    | _ => False
+    end.
+Proof. exact rust_encode_array_fragment_real_schema. Qed.
+Print Assumptions C03_sizes_counts_and_arrays_encode_as_reference.
+
+(** The side condition "array without size modifier" is there because the full statement is
+    FALSE of the faithful model: for `packet M { _size_(x):8, x:8[+2] }` and x = [1, 2] the
+    reference writes the size 04 (octet size plus modifier), the emitted Rust encoder 02
+    (encoder.rs: "TODO: size modifier"; the Python and C++ backends do add it).  Listed
+    finding F63; this is the witness. *)
+Theorem C03_array_size_modifier_refuted :
+  exists sch, Analyzer.Schema.mk_schema mod_file = Some sch /\
+    ref_encode 5 mod_file "M" (VObj [("x", VList [VNum 1; VNum 2])]) = Some [x04; x01; x02] /\
+    rust_encode 5 mod_file sch "M" (VObj [("x", VList [VNum 1; VNum 2])]) = Outcome.Ok [x02; x01; x02].
+Proof. exact size_modifier_counter_example. Qed.
+Print Assumptions C03_array_size_modifier_refuted.
 
 (** the model and the reference agree on a concrete mixed declaration (computed) *)
 Definition c03_file : file :=
